@@ -1,11 +1,23 @@
 #!/bin/bash
 # Behaviour-preserving (w.r.t. the properties) variants: no check may alarm.
+#  - breaks/equivalent/*.diff           my own small variants (checked against their own property)
+#  - seeded/equivalent/<ID>/patch.diff  independent sub-agents' refactorings (checked against the
+#    checks listed in meta.json "checks_that_must_stay_silent")
+# usage: tools/equivalents.sh [quick|thorough]
 cd "$(dirname "$0")/.."
+export TIER="${1:-quick}"
 rc=0
 for p in breaks/equivalent/*.diff; do
   id=$(basename $p | cut -d- -f1)
   out=$(tools/mutant.sh $p $id 2>&1 | grep -E "^==")
   echo "$(basename $p): $out" | cut -c1-150
   echo "$out" | grep -q "rc=0" || rc=1
+done
+for d in seeded/equivalent/C*; do
+  id=$(basename $d)
+  checks=$(/venv/bin/python -c "import json;print(' '.join(json.load(open('$d/meta.json'))['checks_that_must_stay_silent']))")
+  out=$(tools/mutant.sh $d/patch.diff $checks 2>&1 | grep -E "^==")
+  echo "equivalent/$id: $(echo $out)" | cut -c1-300
+  echo "$out" | grep -qv "rc=0" && rc=1
 done
 exit $rc
